@@ -101,7 +101,10 @@ impl Report {
     }
 
     pub fn violation(&mut self, v: Violation) {
-        if self.violations.len() < 500 {
+        // at most 100 per tag class (a frequent known finding must never
+        // crowd out a violation of another kind), 5000 in total
+        let same = self.violations.iter().filter(|w| w.tags == v.tags).count();
+        if same < 100 && self.violations.len() < 5000 {
             self.violations.push(v);
         }
     }
